@@ -230,7 +230,7 @@ def operator(mult=None, tables=False, retable=False, exact=False):
 
 
 BAD_OPS = ["iadd-int", "add-str", "iadd-none", "replace-none", "volume-bad-name", "natural-density-bad", "sld-bad-wavelength",
-           "formula-bad-string", "dict-bad-count", "mul-bad"]
+           "formula-bad-string", "dict-bad-count", "mul-bad", "mul-decimal", "mul-decimal"]
 
 
 class _BadNumber(object):
@@ -268,6 +268,10 @@ def do_bad(E, f, how):
             formula(dict((a, _BadNumber()) for a in f.atoms)).mass
         elif how == "mul-bad":
             (_BadNumber() * f).mass
+        elif how == "mul-decimal":
+            import decimal
+            g = decimal.Decimal(2) * f
+            g.mass, g.atoms, g.charge
         else:
             raise ValueError(how)
     except Exception:  # noqa
@@ -541,6 +545,11 @@ def _interpret(E, ops, observer, before, mag, vars_, flags, skipped, ctor_ops, s
             flags["kinds"].append("bad:%s:%s" % (op[2], "raised" if raised else "accepted"))
             st_.operands = [op[1] % n]
             v = None
+            if op[2] == "mul-decimal":
+                # the equal, valid multiplier right after the rejected Decimal one: a new variable, judged as any product
+                f = 2 * a.f
+                v = Var(f, mscale(a.comp, Fraction(2)), "mul", a.table)
+                v.exact = a.exact
         elif kind == "clone":
             import copy as _copy
             import pickle as _pickle
